@@ -34,7 +34,7 @@ class ReplayDivergence(Unsupported):
 
 
 SOLVER_TIMEOUT_MS = 60_000
-MAX_CONCRETIZE = 64
+MAX_CONCRETIZE = 128
 UNBOUNDED_LIMIT = 10**6
 
 
